@@ -248,7 +248,7 @@ def run(ck: Check):
         "not of one Einsum",
     ]
     ncpu = os.cpu_count() or 1
-    nproc = max(2, min(8, ncpu // 2))
+    nproc = max(2, min(8 if thorough else 4, ncpu // 2))
     pool = ProcessPoolExecutor(nproc, mp_context=multiprocessing.get_context("fork"))
     list(pool.map(_spawn, range(nproc)))        # fork the workers before any thread exists
     warm = [pool.submit(_warm, i) for i in range(nproc)]  # accelforge is imported while TLC runs
@@ -256,7 +256,7 @@ def run(ck: Check):
     jobs = [("e2n1", "MC_Renames_e2n1.cfg", {})]
     if thorough:
         jobs = [("e3n1", "MC_Renames_e3n1.cfg", {}), ("e2n2", "MC_Renames_e2n2.cfg", {})] + jobs
-    jobs.append(("rand", "MC_Renames_rand.cfg", dict(sim, depth=15000 if thorough else 1500, seed=seed * 1000 + 29)))
+    jobs.append(("rand", "MC_Renames_rand.cfg", dict(sim, depth=15000 if thorough else 1000, seed=seed * 1000 + 29)))
     timing, total, vias = {}, 0, {"local": 0, "top": 0, "default": 0, "none": 0}
     rejected = 0
 
